@@ -257,6 +257,32 @@ void h_IdentifySection(void) {
     }
 }
 
+/* ExpandStrSymbol: names with a {string expression} part (labels, IFDEF, SECTION, PUBLIC ... all pass through it).
+ * Whatever the length of the text in front of the '{', the expansion stays inside the caller's buffer (C03: no write outside
+ * allocations); the literal text is copied as far as it fits.  Bounded: buffer of 16 bytes, text of up to 24 characters. */
+#ifdef VERIF_EXPAND
+char* QuotPosQualify(char const* s, char Zeichen, tQualifyQuoteFnc QualifyQuoteFnc) { int i; (void)QualifyQuoteFnc; for (i = 0; i < 40 && s[i]; i++) if (s[i] == Zeichen) return (char*)s + i; return NULL; }
+void verif_EvalStrStringExpressionWithResult(const struct sStrComp* pExpr, struct sEvalResult* pResult, char* pEvalResult) {
+    (void)pExpr; pResult->OK = True; pResult->Flags = eSymbolFlag_None; pEvalResult[0] = 'r'; pEvalResult[1] = 's'; pEvalResult[2] = 0;
+}
+void UpString(char* s) { (void)s; }
+void h_ExpandStrSymbol(void) {
+    static tStrComp comp; static char src[40]; char* dest; unsigned n, i, dsz = 16; Boolean r;
+    VND(n, uint); VASSUME(n <= 24);
+    for (i = 0; i < 24; i++) src[i] = 'a';
+    src[n] = '{'; src[n + 1] = 'x'; src[n + 2] = '}'; src[n + 3] = 'b'; src[n + 4] = 0;       /* aaa...a{x}b */
+    comp.str.p_str = src; comp.str.capacity = 40; comp.str.dynamic = 0;
+    dest = malloc(dsz); VASSUME(dest != NULL);
+    CaseSensitive = True;
+    r = ExpandStrSymbol(dest, dsz, &comp);
+    VPOST(r, "C13: a name with a string expression expands");
+    { unsigned l = 0; int nul = 0; for (i = 0; i < 16; i++) if (!nul) { if (dest[i] == 0) nul = 1; else l++; }
+      VPOST(nul && l <= dsz - 1, "C03: the expanded name is NUL-terminated inside the caller's buffer");
+      VPOST(n + 3 > dsz - 1 || (l == n + 3 && dest[n] == 'r' && dest[n + 1] == 's' && dest[n + 2] == 'b'), "C13: literal text and the expression's value are concatenated in order when they fit"); }
+    VREACH("end");
+}
+#endif
+
 /* ---- range check of expression results (C14 / C09: "rejected instead of truncated") ------------
  * The formula parser is replaced by an oracle (goto-instrument --replace-calls
  * EvalStrExpression:verif_EvalStrExpression): it returns an arbitrary integer with arbitrary flags. */
